@@ -72,6 +72,11 @@ def gen_workspace(rng, root, nfiles):
            "include_dirs": ["sub", rng.choice(PAYLOADS).format(root=root, k="inc")[:40]],
            "hover_language": rng.choice(PAYLOADS).format(root=root, k="hl")[:40],
            "pp_suffixes": [".F90", ".F", ".h"]}
+    # values of the wrong type / path-like strings for options that name or enable files
+    if rng.random() < 0.6:
+        cfg["debug_log"] = rng.choice(["victim.txt", "sub/h.h", "../escaped.log", files[0], True, 1, "true"])
+    if rng.random() < 0.3:
+        cfg[rng.choice(["source_dirs", "include_dirs", "excl_paths"])] = ["victim.txt", "sub", "../"]
     with open(os.path.join(root, ".fortlsrc"), "w") as f:
         json.dump(cfg, f)
     return files
